@@ -518,3 +518,8 @@ WITNESSES += [
     Witness("C17.W16", "menpo/shape/mesh/base.py", "TriMesh.tri_areas", "t = self.points[self.trilist]",
             "if getattr(self, '_areas', None) is not None:\n        return self._areas\n    t = self.points[self.trilist]\n    self._areas = None", rule="C17.G5", construct="tri_areas", note="generic: a method gives the object a new attribute"),
 ]
+
+WITNESSES += [
+    Witness("C17.W17", "menpo/shape/adjacency.py", "mask_adjacency_array", "np.isin(adjacency_array, indices_to_remove)", "np.isin(adjacency_array, indices_to_remove, assume_unique=True)",
+            rule="C17.G10", construct="mask_adjacency_array", note="seeded change R5-C17-A (generic: precondition-waiving keyword)"),
+]
